@@ -59,6 +59,7 @@ type RunSpec struct {
 	Patterns []string // package patterns
 	Prefix   string   // harness name prefix
 	Targets  []string // extra target package paths
+	TargetPrefixes []string
 	Permute  bool
 	WriteMon bool
 	Unwind   int
@@ -171,6 +172,7 @@ func runCheck(p *Prop, tier string, seed int64) int {
 		for _, t := range rs.Targets {
 			e.TargetPaths[t] = true
 		}
+		e.TargetPrefixes = rs.TargetPrefixes
 		for _, t := range rs.Transparent {
 			e.Transparent[t] = true
 		}
